@@ -23,6 +23,8 @@ theorem pres_pureBuiltin (c : Option Nat) (name : String) (recv : Val) (args : L
     | exact PresM.unsup _ _
     | exact pres_intBin _ _ _ _
     | exact PresM.bind (PresM.printLine _ _) (fun _ => PresM.pure _ _)
+    | exact PresM.bind (PresM.readLine _) (fun _ => PresM.bind (PresM.printLine _ _) (fun _ => PresM.pure _ _))
+    | exact PresM.bind (PresM.readLine _) (fun _ => PresM.pure _ _)
     | (dsimp only; split <;> exact PresM.pure _ _)
 
 /-- the induction hypothesis: every function of the evaluator keeps its footprint at this fuel -/
@@ -96,6 +98,7 @@ macro_rules
       | (head_is frameOuter; exact PresM.frameOuter _ _)
       | (head_is getIter; exact PresM.getIter _ _)
       | (head_is printLine; exact PresM.printLine _ _)
+      | (head_is readLine; exact PresM.readLine _)
       | (head_is newIter; exact PresM.newIter _ _ _ _ _)
       | (head_is copyIter; exact PresM.copyIter _ _)
       | (head_is repointIter; exact PresM.repointIter _ _ _)
